@@ -10,9 +10,15 @@
 (*   groups : function group name -> [ld, pel, cons, skew]                 *)
 (*            ld   = last delivered id                                     *)
 (*            pel  = function id -> [c |-> owner, n |-> deliveries]        *)
-(*            cons = set of consumer names                                 *)
-(*            skew = FALSE in every conforming behaviour (see the          *)
-(*                   deviation xreadgroup_history_redelivers)              *)
+(*            cons = function consumer name -> "yes" (exists) | "ver"      *)
+(*                   (exists or not: Redis versions differ) | "dev"        *)
+(*                   (exists; under the known defect                       *)
+(*                   xreadgroup_consumer_not_created it may not).  One     *)
+(*                   three-valued state instead of forking keeps trace     *)
+(*                   validation linear.                                    *)
+(*            skew = {} in every conforming behaviour; otherwise the names *)
+(*                   of the known defects by which the implementation's    *)
+(*                   pending-entry accounting of this group went wrong     *)
 (* An id is a pair <<ms, seq>> of normalised DIGIT tuples (64-bit values   *)
 (* do not fit TLC integers); compared with Bytes!MagCmp.                   *)
 (* A stream that becomes empty still exists as a key.                      *)
@@ -76,7 +82,7 @@ StreamE(v, exp) == Entry("stream", v, exp)
 EmptyStream == [ents |-> <<>>, last |-> ZeroId, groups |-> <<>>]
 SVal(K, k) == IF Has(K, k) THEN K[k].v ELSE EmptyStream
 PutS(K, k, v) == Put(K, k, StreamE(v, ExpOf(K, k)))
-NewGroup(id) == [ld |-> id, pel |-> <<>>, cons |-> {}, skew |-> FALSE]
+NewGroup(id) == [ld |-> id, pel |-> <<>>, cons |-> <<>>, skew |-> {}]
 
 (* ---- replies ---- *)
 RFlds(f) == [t |-> "flds", v |-> f]          \* flat array field value ..., pairs in any order
@@ -137,10 +143,15 @@ CmdXLEN(a, K) ==
   ELSE Out(RInt(Len(SVal(K, a[2]).ents)), K)
 
 (* XRANGE key start end [COUNT n] / XREVRANGE key end start [COUNT n] *)
+RECURSIVE CmdXRANGE(_, _, _)
 CmdXRANGE(a, K, rev) ==
   IF Len(a) < 4 THEN Fail(K)
   ELSE IF Len(a) > 6 THEN Unspec(K)
-  ELSE IF Len(a) = 5 \/ (Len(a) = 6 /\ Upper(a[5]) # L_COUNT) THEN Fail(K)
+  ELSE IF Len(a) = 5 \/ (Len(a) = 6 /\ Upper(a[5]) # L_COUNT) THEN
+         Fail(K) \cup (* known defect: arguments that are not a COUNT clause are ignored (XREVRANGE: a lone number counts) *)
+                      Tag("xrange_trailing_args_ignored",
+                          CmdXRANGE(IF rev /\ Len(a) = 5 /\ IsInt(a[5]) /\ ~IntOf(a[5]).neg
+                                    THEN Sub(a, 1, 4) \o <<L_COUNT, a[5]>> ELSE Sub(a, 1, 4), K, rev))
   ELSE LET lob == IF rev THEN a[4] ELSE a[3] hib == IF rev THEN a[3] ELSE a[4]
            ks == {BoundKindX(lob), BoundKindX(hib)} IN
     IF "bad" \in ks THEN Fail(K)
@@ -225,5 +236,351 @@ CmdXTRIM(a, K) ==
   ELSE LET v == K[a[2]].v n == SmallOf(a[4]) len == Len(v.ents)
        IN IF len <= n THEN Out(RInt(0), K)
           ELSE Out(RInt(len - n), PutS(K, a[2], [v EXCEPT !.ents = Sub(@, len - n + 1, len)]))
+
+-----------------------------------------------------------------------------
+(* CONSUMER GROUPS (C16) *)
+HasG(v, g) == g \in DOMAIN v.groups
+PutG(K, k, g, grp) == LET v == K[k].v IN PutS(K, k, [v EXCEPT !.groups = (g :> grp) @@ @])
+DropIds(pel, ids) == [x \in (DOMAIN pel) \ ids |-> pel[x]]
+PelSeq(pel) == SetToSortSeq(DOMAIN pel, IdLt)
+OwnedBy(pel, c) == {x \in DOMAIN pel : pel[x].c = c}
+CountBytes(n) == IntBytes(n)
+
+(* group start / SETID argument: "$" = the stream's last id *)
+GIdKind(b) == IF b = L_dollar THEN "ok" ELSE IdKind(b)
+GIdOf(b, v) == IF b = L_dollar THEN v.last ELSE IdOf(b)
+
+(* XGROUP CREATE key group <id | $> [MKSTREAM] *)
+CmdXGCREATE(a, K) ==
+  IF Len(a) < 5 THEN Fail(K)
+  ELSE IF Len(a) > 6 \/ (Len(a) = 6 /\ Upper(a[6]) # L_MKSTREAM) THEN Unspec(K)    \* ENTRIESREAD (7.0)
+  ELSE LET k == a[3] g == a[4] kd == GIdKind(a[5]) IN
+    IF kd = "bad" THEN
+      Fail(K) \cup (* known defect: MKSTREAM creates the empty stream before the id is validated *)
+                   (IF Len(a) = 6 /\ ~Has(K, k)
+                    THEN Dev("xgroup_create_mkstream_not_atomic", RErr, PutS(K, k, EmptyStream)) ELSE {})
+    ELSE IF kd # "ok" THEN Unspec(K)
+    ELSE IF WrongT(K, k, "stream") THEN Fail(K)
+    ELSE IF ~Has(K, k) /\ Len(a) = 5 THEN Fail(K)           \* the key must exist unless MKSTREAM
+    ELSE LET v == SVal(K, k) id == GIdOf(a[5], v)
+             with(x) == PutS(K, k, [v EXCEPT !.groups = (g :> NewGroup(x)) @@ @])
+         IN IF HasG(v, g) THEN Fail(K)                       \* BUSYGROUP
+            ELSE Out(ROk, with(id))
+                 \cup (* known defect: the start position is ignored, every group starts at 0-0 *)
+                      (IF id # ZeroId THEN Dev("xgroup_create_ignores_id", ROk, with(ZeroId)) ELSE {})
+
+(* XGROUP DESTROY key group *)
+CmdXGDESTROY(a, K) ==
+  IF Len(a) # 4 THEN Fail(K)
+  ELSE IF WrongT(K, a[3], "stream") THEN Fail(K)
+  ELSE IF ~Has(K, a[3]) THEN Fail(K) \cup Dev("xgroup_missing_noerr", RInt(0), K)
+  ELSE LET v == K[a[3]].v IN
+    IF ~HasG(v, a[4]) THEN Out(RInt(0), K)
+    ELSE Out(RInt(1), PutS(K, a[3], [v EXCEPT !.groups = [x \in (DOMAIN @) \ {a[4]} |-> @[x]]]))
+
+(* XGROUP SETID key group <id | $> *)
+CmdXGSETID(a, K) ==
+  IF Len(a) < 5 THEN Fail(K)
+  ELSE IF Len(a) > 5 THEN Unspec(K)
+  ELSE LET kd == GIdKind(a[5]) IN
+    IF kd \notin {"ok", "bad"} THEN Unspec(K)
+    ELSE IF ~IsT(K, a[3], "stream") THEN Fail(K)
+    ELSE LET v == K[a[3]].v IN
+      IF ~HasG(v, a[4]) \/ kd = "bad" THEN Fail(K)
+      ELSE Out(ROk, PutG(K, a[3], a[4], [v.groups[a[4]] EXCEPT !.ld = GIdOf(a[5], v)]))
+
+CStat(grp, c) == IF c \in DOMAIN grp.cons THEN grp.cons[c] ELSE "no"
+SetC(cons, c, st) == (c :> st) @@ cons
+DelC(cons, c) == [x \in (DOMAIN cons) \ {c} |-> cons[x]]
+(* after a request that must create consumer c; made = the implementation under test creates it as well *)
+Seen(grp, c, made) == SetC(grp.cons, c, IF made \/ CStat(grp, c) = "yes" THEN "yes" ELSE "dev")
+
+(* XGROUP CREATECONSUMER key group consumer *)
+CmdXGCREATECONSUMER(a, K) ==
+  IF Len(a) # 5 THEN Fail(K)
+  ELSE IF ~IsT(K, a[3], "stream") THEN Fail(K)
+  ELSE LET v == K[a[3]].v IN
+    IF ~HasG(v, a[4]) THEN Fail(K)
+    ELSE LET grp == v.groups[a[4]] IN
+      LET st == CStat(grp, a[5]) K2 == PutG(K, a[3], a[4], [grp EXCEPT !.cons = SetC(@, a[5], "yes")]) IN
+      CASE st = "yes" -> Out(RInt(0), K)
+        [] st = "no" -> Out(RInt(1), K2)
+        [] st = "ver" -> Out(ROneOf({RInt(0), RInt(1)}), K2)
+        [] st = "dev" -> Out(RInt(0), K2) \cup Dev("xreadgroup_consumer_not_created", RInt(1), K2)
+
+(* a group whose pending-entry accounting the implementation is known to have broken (only reachable through the
+   deviations named in skew): what it reports about pending entries afterwards is not checked *)
+Skewed(grp, K) == DevSet(grp.skew, RAny, K)
+
+(* XGROUP DELCONSUMER key group consumer -> number of pending entries the consumer had *)
+CmdXGDELCONSUMER(a, K) ==
+  IF Len(a) # 5 THEN Fail(K)
+  ELSE IF WrongT(K, a[3], "stream") THEN Fail(K)
+  ELSE IF ~Has(K, a[3]) THEN Fail(K) \cup Dev("xgroup_missing_noerr", RInt(0), K)
+  ELSE LET v == K[a[3]].v IN
+    IF ~HasG(v, a[4]) THEN Fail(K) \cup Dev("xgroup_missing_noerr", RInt(0), K)
+    ELSE LET grp == v.groups[a[4]] mine == OwnedBy(grp.pel, a[5])
+             K2 == PutG(K, a[3], a[4], [grp EXCEPT !.pel = DropIds(@, mine), !.cons = DelC(@, a[5])])
+         IN Out(RInt(Cardinality(mine)), K2) \cup Skewed(grp, K2)
+
+CmdXGROUP(a, K) ==
+  IF Len(a) < 2 THEN Fail(K)
+  ELSE LET sub == Upper(a[2]) IN
+    CASE sub = L_CREATE -> CmdXGCREATE(a, K)
+      [] sub = L_DESTROY -> CmdXGDESTROY(a, K)
+      [] sub = L_SETID -> CmdXGSETID(a, K)
+      [] sub = L_CREATECONSUMER -> CmdXGCREATECONSUMER(a, K)
+      [] sub = L_DELCONSUMER -> CmdXGDELCONSUMER(a, K)
+      [] sub = L_HELP -> Unspec(K)
+      [] OTHER -> Fail(K)
+
+-----------------------------------------------------------------------------
+(* XREADGROUP GROUP group consumer [COUNT n] [NOACK] STREAMS key <">" | id>                                  *)
+(* ">"  : the entries after the group's last-delivered id, each to exactly one consumer; they become pending *)
+(*        for that consumer (not with NOACK) and the group advances                                          *)
+(* id   : the consumer's OWN pending entries after id (history); nothing new is delivered                    *)
+RECURSIVE Deliver(_, _, _)
+Deliver(pel, es, c) == \* entries es become pending for c with one delivery
+  IF es = <<>> THEN pel ELSE Deliver((Head(es).id :> [c |-> c, n |-> 1]) @@ pel, Tail(es), c)
+
+RHistRow(v, id) == IF id \in EntIds(v) THEN REnt(EntOf(v, id)) ELSE RArr(<<RBulk(IdBytes(id)), RNilArr>>)
+RECURSIVE Redeliver(_, _, _)
+Redeliver(pel, ids, v) == \* history read: one more delivery of the entries still present
+  IF ids = <<>> THEN pel
+  ELSE Redeliver(IF Head(ids) \in EntIds(v) THEN [pel EXCEPT ![Head(ids)].n = @ + 1] ELSE pel, Tail(ids), v)
+
+CmdXREADGROUP(a, K) ==
+  IF Len(a) < 7 THEN Fail(K)
+  ELSE IF Upper(a[2]) # L_GROUP THEN Unspec(K)              \* GROUP after other options
+  ELSE LET g == a[3] c == a[4] o == ReadOpts(a, 5, TRUE, ReadOptsInit) IN
+    IF o.unspec THEN Unspec(K)
+    ELSE IF ~o.ok \/ o.at = 0 THEN Fail(K)
+    ELSE LET rest == Len(a) - o.at + 1 IN
+      IF rest = 0 \/ rest % 2 # 0 THEN Fail(K)
+      ELSE IF rest > 2 THEN Unspec(K)                         \* several streams in one request
+      ELSE LET k == a[o.at] idb == a[o.at + 1]
+               kd == IF idb = L_gt THEN "ok" ELSE IF idb = L_dollar THEN "bad" ELSE IdKind(idb) IN
+        IF ~Has(K, k) /\ kd \in {"ok", "bad"}
+        THEN Fail(K) \cup DevSet({"xgroupread_missing_noerr", "xread_empty_not_nil"}, RArr(<<>>), K)
+        ELSE IF kd = "bad" THEN Fail(K)
+        ELSE IF kd # "ok" THEN Unspec(K)
+        ELSE IF WrongT(K, k, "stream") THEN Fail(K)
+        ELSE LET v == K[k].v IN
+          IF ~HasG(v, g) THEN Fail(K)
+          ELSE LET grp == v.groups[g]
+                   lim == Limit(o.count)
+                   one(es) == RArr(<<RArr(<<RBulk(k), es>>)>>)
+               IN IF idb = L_gt THEN
+                 LET es == FirstN(After(v.ents, grp.ld), lim)
+                     ld2 == IF es = <<>> THEN grp.ld ELSE es[Len(es)].id
+                     (* the implementation under test, by its known defects *)
+                     fes == IF o.count = 0 THEN <<>> ELSE es
+                     fr == IF fes = <<>> THEN RArr(<<>>) ELSE one(REnts(fes))
+                     facked == fes # <<>> /\ ~o.noack
+                     g2 == [grp EXCEPT !.cons = Seen(grp, c, facked), !.ld = ld2,
+                                       !.pel = IF o.noack THEN @ ELSE Deliver(@, es, c)]
+                     r == IF es = <<>> THEN RNilArr ELSE one(REnts(es))
+                     (* known defect: delivering an entry that is already pending (possible after SETID) re-assigns it
+                        without updating the previous owner's counter and index *)
+                     steal == IF facked /\ \E i \in 1..Len(fes) : fes[i].id \in DOMAIN grp.pel
+                              THEN {"xreadgroup_redelivery_skews_counters"} ELSE {}
+                     fg == IF facked THEN [grp EXCEPT !.cons = Seen(grp, c, TRUE), !.ld = fes[Len(fes)].id,
+                                                      !.pel = Deliver(@, fes, c), !.skew = @ \cup steal]
+                           ELSE [grp EXCEPT !.cons = Seen(grp, c, FALSE)]
+                     fdv == steal \cup (IF fes = <<>> THEN {"xread_empty_not_nil"} ELSE {})
+                            \cup (IF fes # es THEN {"xread_count0_empty"} ELSE {})
+                            \cup (IF fes # <<>> /\ o.noack THEN {"xreadgroup_noack_no_advance"} ELSE {})
+                 IN Out(r, PutG(K, k, g, g2)) \cup DevSet(fdv, fr, PutG(K, k, g, fg))
+               ELSE
+                 LET from == IdOf(idb)
+                     ids == FirstN(SelectSeq(PelSeq(grp.pel), LAMBDA x : grp.pel[x].c = c /\ IdLt(from, x)), lim)
+                     r == one(RArr([i \in 1..Len(ids) |-> RHistRow(v, ids[i])]))
+                     (* known defect xreadgroup_history_redelivers: an explicit id is treated as a position in the
+                        STREAM: every entry after it is delivered (again) and becomes pending for this consumer *)
+                     fes == IF o.count = 0 THEN <<>> ELSE FirstN(After(v.ents, from), lim)
+                     fr == IF fes = <<>> THEN RArr(<<>>) ELSE one(REnts(fes))
+                     facked == fes # <<>> /\ ~o.noack
+                     g2 == [grp EXCEPT !.cons = Seen(grp, c, facked), !.pel = Redeliver(@, ids, v)]
+                     fg == IF facked
+                           THEN [grp EXCEPT !.cons = Seen(grp, c, TRUE), !.ld = IdMax2(@, fes[Len(fes)].id), !.pel = Deliver(@, fes, c),
+                                            !.skew = IF \E i \in 1..Len(fes) : fes[i].id \in DOMAIN grp.pel
+                                                     THEN @ \cup {"xreadgroup_history_redelivers"} ELSE @]
+                           ELSE [grp EXCEPT !.cons = Seen(grp, c, FALSE)]
+                 IN Out(r, PutG(K, k, g, g2))
+                    \cup Dev("xreadgroup_history_redelivers", fr, PutG(K, k, g, fg))
+                    \cup Skewed(grp, PutG(K, k, g, g2))
+
+(* XACK key group id [id ...] -> number of entries that were pending (each counted once) *)
+CmdXACK(a, K) ==
+  IF Len(a) < 4 THEN Fail(K)
+  ELSE LET kd == IdsKind(Args(a, 4)) IN
+    IF WrongT(K, a[2], "stream") THEN Fail(K)
+    ELSE IF kd \notin {"ok", "bad"} THEN Unspec(K)
+    ELSE IF ~Has(K, a[2]) \/ ~HasG(K[a[2]].v, a[3])
+         THEN Out(IF kd = "bad" THEN ROneOf({RErr, RInt(0)}) ELSE RInt(0), K)
+    ELSE IF kd = "bad" THEN Fail(K)
+    ELSE LET grp == K[a[2]].v.groups[a[3]]
+             hit == {IdOf(a[i]) : i \in 4..Len(a)} \cap DOMAIN grp.pel
+             K2 == PutG(K, a[2], a[3], [grp EXCEPT !.pel = DropIds(@, hit)])
+         IN Out(RInt(Cardinality(hit)), K2) \cup Skewed(grp, K2)
+
+(* XCLAIM key group consumer min-idle-time id [id ...] [JUSTID] *)
+(* A pending entry whose stream entry was deleted: Redis 6.2 still transfers it and reports nil (the id with   *)
+(* JUSTID); Redis 7.0 drops it from the pending list and reports nothing.  mode = "62" | "70" | "impl".        *)
+RECURSIVE Claim(_, _, _, _, _, _, _, _)
+Claim(ids, pel, acc, v, c, justid, S, mode) == \* S = the ids to claim (idle long enough); acc = reply rows
+  IF ids = <<>> THEN [pel |-> pel, rows |-> acc]
+  ELSE LET x == Head(ids) IN
+    IF x \notin DOMAIN pel \/ x \notin S THEN Claim(Tail(ids), pel, acc, v, c, justid, S, mode)
+    ELSE LET here == x \in EntIds(v)
+             bump == mode = "impl" \/ ~justid
+             moved == [pel EXCEPT ![x] = [c |-> c, n |-> IF bump THEN @.n + 1 ELSE @.n]]
+         IN IF here THEN Claim(Tail(ids), moved, Append(acc, IF justid THEN RBulk(IdBytes(x)) ELSE REnt(EntOf(v, x))),
+                               v, c, justid, S, mode)
+            ELSE IF mode = "62" THEN Claim(Tail(ids), moved, Append(acc, IF justid THEN RBulk(IdBytes(x)) ELSE RNil),
+                                           v, c, justid, S, mode)
+            ELSE IF mode = "70" THEN Claim(Tail(ids), DropIds(pel, {x}), acc, v, c, justid, S, mode)
+            ELSE Claim(Tail(ids), moved, acc, v, c, justid, S, mode)
+
+ClaimOptWords == {L_IDLE, L_TIME, L_RETRYCOUNT, L_FORCE, L_LASTID}
+
+CmdXCLAIM(a, K) ==
+  IF Len(a) < 6 THEN Fail(K)
+  ELSE LET idx == {i \in 6..Len(a) : IdKind(a[i]) = "ok"}
+           nid == IF \E i \in 6..Len(a) : i \notin idx THEN MinOf({i \in 6..Len(a) : i \notin idx}) - 6 ELSE Len(a) - 5
+           opts == {Upper(a[i]) : i \in (6 + nid)..Len(a)} IN
+    IF ~IsInt(a[5]) \/ IntOf(a[5]).neg THEN Fail(K)
+    ELSE IF \E i \in 6..Len(a) : IdKind(a[i]) = "inc" THEN Unspec(K)
+    ELSE IF opts \cap ClaimOptWords # {} \/ nid = 0 THEN Unspec(K)
+    ELSE IF opts \ {L_JUSTID} # {} THEN Fail(K)
+    ELSE IF WrongT(K, a[2], "stream") THEN Fail(K)
+    ELSE IF ~Has(K, a[2]) THEN Fail(K) \cup Dev("xgroupread_missing_noerr", RArr(<<>>), K)
+    ELSE LET v == K[a[2]].v IN
+      IF ~HasG(v, a[3]) THEN Fail(K)
+      ELSE LET grp == v.groups[a[3]] c == a[4] justid == L_JUSTID \in opts
+               ids == [i \in 1..nid |-> IdOf(a[5 + i])]
+               cand == SeqSet(ids) \cap DOMAIN grp.pel
+               (* min-idle-time 0 claims every pending id named; otherwise each may or may not be idle long enough *)
+               choices == IF IntOf(a[5]) = BigZero THEN {cand} ELSE SUBSET cand
+               result(S, mode) ==
+                 LET cl == Claim(ids, grp.pel, <<>>, v, c, justid, S, mode)
+                     mk(cons) == [r |-> RArr(cl.rows), K |-> PutG(K, a[2], a[3], [grp EXCEPT !.pel = cl.pel, !.cons = cons])]
+                 IN IF cl.pel # grp.pel \/ cl.rows # <<>> THEN {mk(SetC(grp.cons, c, "yes"))}
+                    ELSE (* nothing claimed: 6.2 does not create the consumer, 7.0 does *)
+                         {mk(IF CStat(grp, c) = "no" THEN SetC(grp.cons, c, "ver") ELSE grp.cons)}
+               conf == UNION {result(S, "62") \cup result(S, "70") : S \in choices}
+               impl == UNION {result(S, "impl") : S \in choices}
+               gone(S) == \E x \in S : x \notin EntIds(v)
+               fdv(S) == (IF justid /\ S # {} THEN {"xclaim_justid_increments"} ELSE {})
+                         \cup (IF gone(S) THEN {"xclaim_deleted_entry"} ELSE {})
+           IN {[r |-> x.r, K |-> x.K, dv |-> {}] : x \in conf}
+              \cup UNION {UNION {DevSet(fdv(S), x.r, x.K) : x \in result(S, "impl")} : S \in choices}
+              \cup UNION {Skewed(grp, x.K) : x \in conf}
+
+(* XPENDING key group [start end count [consumer]] *)
+CmdXPENDING(a, K) ==
+  IF Len(a) < 3 THEN Fail(K)
+  ELSE IF WrongT(K, a[2], "stream") THEN Fail(K)
+  ELSE IF ~Has(K, a[2]) \/ ~HasG(K[a[2]].v, a[3]) THEN Fail(K) \cup Dev("xgroupread_missing_noerr", RNilArr, K)
+  ELSE IF Len(a) \in {4, 5} THEN Fail(K)
+  ELSE IF Len(a) > 7 \/ (Len(a) > 3 /\ Upper(a[4]) = L_IDLE) THEN Unspec(K)
+  ELSE LET grp == K[a[2]].v.groups[a[3]] pel == grp.pel ps == PelSeq(pel) IN
+    IF Len(a) = 3 THEN
+      (IF ps = <<>> THEN Out(RArr(<<RInt(0), RNil, RNil, ROneOf({RNilArr, RArr(<<>>)})>>), K)
+       ELSE LET cs == SetToSeq({pel[x].c : x \in DOMAIN pel})
+                pairs == [i \in 1..Len(cs) |-> <<cs[i], CountBytes(Cardinality(OwnedBy(pel, cs[i])))>>]
+                sum(intOK) == RArr(<<RInt(Len(ps)), RBulk(IdBytes(ps[1])), RBulk(IdBytes(ps[Len(ps)])), RPendCons(pairs, intOK)>>)
+            IN Out(sum(FALSE), K)
+               \cup (* known defect: per-consumer counts are sent as integers, not as bulk strings *)
+                    Dev("xpending_count_not_bulk", sum(TRUE), K))
+      \cup Skewed(grp, K)
+    ELSE LET ks == {BoundKindX(a[4]), BoundKindX(a[5])} IN
+      IF "bad" \in ks THEN Fail(K)
+      ELSE IF ks # {"ok"} THEN Unspec(K)
+      ELSE IF ~IsInt(a[6]) THEN Fail(K)
+      ELSE IF IntOf(a[6]).neg THEN Out(ROneOf({RErr, RArr(<<>>)}), K)
+      ELSE LET lo == BoundOf(a[4]) hi == BoundOf(a[5]) n == SmallOf(a[6])
+               row(x) == <<IdBytes(x), pel[x].c, CountBytes(pel[x].n)>>
+               mine == IF Len(a) = 7 THEN SelectSeq(ps, LAMBDA x : pel[x].c = a[7]) ELSE ps
+               sel == FirstN(SelectSeq(mine, LAMBDA x : IdLe(lo, x) /\ IdLe(x, hi)), n)
+           IN Out(RPendExt([i \in 1..Len(sel) |-> row(sel[i])], TRUE), K)
+              \cup (* known defect: with a consumer argument the id range is ignored and the order is that of delivery *)
+                   (IF Len(a) = 7 /\ n > 0 /\ (sel # mine \/ Len(mine) > 1)
+                    THEN Dev("xpending_consumer_ignores_range",
+                             IF n >= Len(mine) THEN RPendExt([i \in 1..Len(mine) |-> row(mine[i])], FALSE) ELSE RAny, K)
+                    ELSE {})
+              \cup Skewed(grp, K)
+
+-----------------------------------------------------------------------------
+StreamCommands == {"XADD", "XLEN", "XRANGE", "XREVRANGE", "XREAD", "XDEL", "XTRIM",
+  "XGROUP", "XREADGROUP", "XACK", "XCLAIM", "XPENDING", "XINFO"}
+
+StreamCmd0(name, a, K, obs) ==
+  CASE name = "XADD" -> CmdXADD(a, K, obs)
+    [] name = "XLEN" -> CmdXLEN(a, K)
+    [] name = "XRANGE" -> CmdXRANGE(a, K, FALSE)
+    [] name = "XREVRANGE" -> CmdXRANGE(a, K, TRUE)
+    [] name = "XREAD" -> CmdXREAD(a, K)
+    [] name = "XDEL" -> CmdXDEL(a, K)
+    [] name = "XTRIM" -> CmdXTRIM(a, K)
+    [] name = "XGROUP" -> CmdXGROUP(a, K)
+    [] name = "XREADGROUP" -> CmdXREADGROUP(a, K)
+    [] name = "XACK" -> CmdXACK(a, K)
+    [] name = "XCLAIM" -> CmdXCLAIM(a, K)
+    [] name = "XPENDING" -> CmdXPENDING(a, K)
+    [] name = "XINFO" -> Unspec(K)
+
+(* known defect xid_lenient_parse: an id with an empty half ("1-", "-1", "-") reads that half as 0 and a half
+   beyond 2^64-1 wraps around; the command then runs with the id so obtained *)
+TwoTo64 == <<1,8,4,4,6,7,4,4,0,7,3,7,0,9,5,5,1,6,1,6>>
+LenPart(p) == \* digits of the half as the implementation reads it, or <<>> when it refuses it too
+  IF p = <<>> THEN <<0>>
+  ELSE IF ~\A i \in 1..Len(p) : IsDigit(p[i]) THEN <<>>
+  ELSE LET d == DigitsOf(p) IN
+    IF MagCmp(d, U64MaxD) <= 0 THEN d
+    ELSE IF Len(d) = 20 /\ MagCmp(MagSub(d, TwoTo64), U64MaxD) <= 0 THEN MagSub(d, TwoTo64) ELSE <<>>
+Lenient(b) == \* bytes of the id the implementation reads a refused id as (b itself otherwise)
+  LET d == DashPos(b) IN
+  IF IdKind(b) # "bad" \/ d = 0 THEN b
+  ELSE LET p1 == LenPart(Sub(b, 1, d - 1)) p2 == LenPart(Sub(b, d + 1, Len(b))) IN
+    IF p1 = <<>> \/ p2 = <<>> THEN b ELSE IdBytes(<<p1, p2>>)
+IdArgPos(name, a) ==
+  CASE name = "XADD" -> {3}
+    [] name \in {"XRANGE", "XREVRANGE"} -> {i \in {3, 4} : i <= Len(a) /\ a[i] # L_minus}
+    [] name = "XDEL" -> 3..Len(a)
+    [] name = "XACK" -> 4..Len(a)
+    [] name = "XGROUP" -> IF Len(a) >= 5 /\ Upper(a[2]) \in {L_CREATE, L_SETID} THEN {5} ELSE {}
+    [] name \in {"XREAD", "XREADGROUP"} ->
+         LET st == {i \in 2..Len(a) : Upper(a[i]) = L_STREAMS} IN
+         IF st = {} THEN {} ELSE LET at == MinOf(st) + 1 rest == Len(a) - at + 1 IN
+           IF rest <= 0 \/ rest % 2 # 0 THEN {} ELSE (at + rest \div 2)..Len(a)
+    [] OTHER -> {}
+(* known defect group_name_not_binary_safe: group and consumer names go through a lossy UTF-8 conversion, so every
+   byte that is not valid UTF-8 becomes U+FFFD and distinct binary names collide.  Modelled for names without valid
+   multi-byte sequences (each byte >= 128 stands alone): the command runs with the converted names. *)
+RECURSIVE Lossy(_)
+Lossy(b) == IF b = <<>> THEN <<>> ELSE (IF Head(b) >= 128 THEN <<239, 191, 189>> ELSE <<Head(b)>>) \o Lossy(Tail(b))
+NameArgPos(name, a) ==
+  CASE name = "XGROUP" -> IF Len(a) >= 2 /\ Upper(a[2]) \in {L_CREATECONSUMER, L_DELCONSUMER} THEN {4, 5} ELSE {4}
+    [] name = "XREADGROUP" -> {3, 4}
+    [] name = "XACK" -> {3}
+    [] name = "XCLAIM" -> {3, 4}
+    [] name = "XPENDING" -> {3, 7}
+    [] OTHER -> {}
+StreamCmd1(name, a, K, obs) ==
+  LET pos == IdArgPos(name, a)
+      a2 == [i \in 1..Len(a) |-> IF i \in pos THEN Lenient(a[i]) ELSE a[i]]
+      npos == NameArgPos(name, a)
+      a3 == [i \in 1..Len(a) |-> IF i \in npos THEN Lossy(a[i]) ELSE a[i]]
+  IN StreamCmd0(name, a, K, obs)
+     \cup (IF a2 # a THEN Tag("xid_lenient_parse", StreamCmd0(name, a2, K, obs)) ELSE {})
+     \cup (IF a3 # a THEN Tag("group_name_not_binary_safe", StreamCmd0(name, a3, K, obs)) ELSE {})
+
+(* a known-defect alternative that ends in the same dataset as a conforming outcome matching the observed reply
+   explains nothing: dropped, so that trace validation does not fork on it *)
+StreamCmd(name, a, K, obs) ==
+  LET outs == StreamCmd1(name, a, K, obs) IN
+  IF obs.t = "noobs" THEN outs
+  ELSE {o \in outs : o.dv = {} \/ ~\E p \in outs : p.dv = {} /\ p.K = o.K /\ Match(p.r, obs)}
 
 =============================================================================
